@@ -25,7 +25,6 @@ type Trace struct {
 	Actors   []string        `json:"actors"`
 	Steps    []*Step         `json:"steps"`
 	Expect   *ExpectViol     `json:"expect,omitempty"` // set in violation replay files
-	AltSched []AltStep       `json:"alt_sched,omitempty"`
 	ICA      *ICAWorldCfg    `json:"ica,omitempty"`
 }
 
@@ -35,14 +34,6 @@ type ExpectViol struct {
 	Signature string `json:"signature"`
 	Message   string `json:"message"`
 	Step      int    `json:"step"`
-}
-
-// AltStep is one entry of the alternative restart schedule of replica Q (C10):
-// after step index After (of the primary trace), do Kind.
-type AltStep struct {
-	After int       `json:"after"`
-	Kind  string    `json:"kind"` // "restart" | "crash" | "torn"
-	Torn  *TornSpec `json:"torn,omitempty"`
 }
 
 const (
@@ -70,6 +61,16 @@ type Step struct {
 	Query *QueryStep `json:"query,omitempty"`
 	// ica world
 	ICA *ICAEvent `json:"ica,omitempty"`
+	// Alt: what replica Q (C10) does differently at this step
+	Alt *AltDirective `json:"alt,omitempty"`
+}
+
+// AltDirective is the alternative crash/restart schedule of replica Q (C10),
+// attached to the step it belongs to so that shrinking keeps the association.
+type AltDirective struct {
+	CrashAfter   bool      `json:"crash_after,omitempty"`   // after this tx: crash mid-block (F7)
+	Torn         *TornSpec `json:"torn,omitempty"`          // this commit is torn (F8)
+	RestartAfter bool      `json:"restart_after,omitempty"` // clean restart after this commit (F9)
 }
 
 type TxStep struct {
